@@ -1085,7 +1085,13 @@ func (engine) Run(ci any) lib.Result {
 	}
 	ms := "default"
 	if c.MaxStep > 0 {
-		need := 2*len(gen.Inputs) - 1
+		big := *c
+		big.MaxStep = 1000
+		free := big.specRun(-1)
+		need := len(free.Inputs) + len(free.Rounds)
+		if free.Out.Class == "final" && free.Out.Msg.Role == 3 {
+			need++ // the direct_return node
+		}
 		switch {
 		case c.MaxStep < need:
 			ms = "below"
